@@ -39,9 +39,37 @@ def build(repo, findings):
     open spec fn try_from_spec(v: OpenFile) -> Result<Self, error::Error> { arbitrary() }
 }
 ''')
+    # ---- compose_std_command: the three standard slots (R6 slice) and the predicate that selects the other descriptors (R6 block slice)
+    cm = u.source('brush-core/src/commands.rs')
+    for k, v in (('STDIN_FD', 0), ('STDOUT_FD', 1), ('STDERR_FD', 2)):
+        src.require_text(r'pub const %s: ShellFd = %d;' % (k, v), 'projected constant OpenFiles::%s' % k)
+    fn = 'child_std_streams'
+    t = cm.slice('compose_std_command', r'^\s*match context\.try_fd\(OpenFiles::STDIN_FD\) \{', r'^\s*match context\.try_fd\(OpenFiles::STDERR_FD\) \{',
+                 'fn child_std_streams(context: &ExecutionContext, cmd: &mut StdCommand) -> Result<(), error::Error>', fn)
+    t.r1()
+    t.resub(r'let as_stdio: Stdio = (\w+)\.try_into\(\)\?;', r'let as_stdio: Stdio = Stdio::try_from(\1)?;', 'R14', 'x.try_into()? -> the TryFrom impl called by name (the impl above, under contract)', count=None)
+    t.resub(r'\n\}$', '\n    Ok(())\n}', 'R6', 'wrapper epilogue `Ok(())`', count=1)
+    t.sig(fn, ret='res', requires=[C('aux fresh-command', 'old(cmd).slot(0) is Inherit && old(cmd).slot(1) is Inherit && old(cmd).slot(2) is Inherit')], ensures=[
+        C('C10 each-standard-slot-of-the-child-is-the-table-entry-for-it kf=C10:external-command-inherits-closed-std-stream', '''res is Ok ==> forall|k: int| 0 <= k <= 2 ==>
+    slot_ok(context.view(k as ShellFd), k, #[trigger] final(cmd).slot(k), {{KF:C10:external-command-inherits-closed-std-stream}} && final(cmd).slot(k) is Inherit)''')])
+    u.add(t)
+    import re as _re
+    m = _re.search(r'let other_files = context\.iter_fds\(\)\.filter\(\|\((\w+), (\w+)\)\| \{\n', cm.text)
+    if not m:
+        from vx.extract import ExtractError
+        raise ExtractError('compose_std_command: `let other_files = context.iter_fds().filter(|(a, b)| {` not found')
+    a1, a2 = m.group(1), m.group(2)
+    fn = 'other_fd_is_injected'
+    g = cm.block_slice(r'^\s*let other_files = context\.iter_fds\(\)\.filter\(\|\(\w+, \w+\)\| \{$',
+                       'fn other_fd_is_injected(%s: &ShellFd, %s: &OpenFile) -> bool' % (a1, a2 if a2 != '_' else '_file'), fn, within_fn='compose_std_command')
+    g.r1()
+    g.sig(fn, ret='r', ensures=[C('C10 every-descriptor-other-than-0-1-2-is-handed-to-the-child-whatever-it-duplicates', 'r == (*%s != 0 && *%s != 1 && *%s != 2)' % (a1, a1, a1))])
+    u.add(g)
+    cm.require_text(r'cmd\.inject_fds\(other_files\)\?;', 'the selected descriptors are injected')
     u.raw(FOOTER)
     u.assume('external_body', "std handle types are opaque with a ghost file identity; try_clone / From<handle> for Stdio / try_clone_to_owned keep the identity (dup(2)); Stdio::inherit() yields the shell's descriptor for the slot being filled (std documented behaviour)")
     u.assume('uninterp', 'ident, slot_default, null_ident')
-    u.assume('stub', 'compose_std_command (which entry goes to which slot, injected fds) is NOT verified; non-unix targets keep inherit()')
-    u.expected_min_fns = 1
+    u.assume('stub', 'the rest of compose_std_command (environment, arguments) and CommandFdInjectionExt::inject_fds (iterator chain over command-fds mappings) are NOT verified; Iterator::filter keeps exactly the elements the predicate accepts (std); non-unix targets keep inherit()')
+    u.assume('uninterp', 'ExecutionContext::view, StdCommand::slot')
+    u.expected_min_fns = 3
     return u
